@@ -113,7 +113,10 @@ def o_c02_post(w, args):
     before = st['rec']; after = _record(c)
     oldsets = {r[2] for r in before.values()}
     toks = line.split(); T = impl.Toks(toks[2:])
-    removed = set(before) - set(after); added = set(after) - set(before)
+    # a library-generated name may be used again after its simplex was deleted: a name counts as
+    # removed / added when it is gone / new *or* now stands for another vertex set
+    removed = {n for n in before if n not in after or after[n][2] != before[n][2]}
+    added = {n for n in after if n not in before or before[n][2] != after[n][2]}
     def frame(except_names=()):
         for n, r in before.items():
             if n in except_names:
